@@ -9,6 +9,7 @@ import (
 
 	"verifharness/model"
 	"verifharness/types"
+	v2 "verifharness/types/v2"
 )
 
 var scalars = []reflect.Type{
@@ -226,6 +227,11 @@ func usesProtoOpt(t reflect.Type, seen map[reflect.Type]bool) bool {
 	return false
 }
 
+func init() {
+	// same bare names, other fields: see package v2
+	types.All = append(types.All, v2.All...)
+}
+
 var jsonNames = []string{"a", "b_c", "sea", "Ünï", "x y", "q\"uote", "-", "n,omitempty", ",omitempty", "z,string"}
 
 // Struct generates an anonymous struct type
@@ -290,7 +296,12 @@ func (g *TG) Struct(depth int) reflect.Type {
 				tg += fmt.Sprintf(` json:%q`, jn)
 			}
 		}
-		fs = append(fs, reflect.StructField{Name: fmt.Sprintf("F%d", i), Type: t, Tag: reflect.StructTag(tg)})
+		// exported names are not always ASCII: capitals of two, three and four UTF-8 bytes
+		prefix := "F"
+		if g.R.IntN(12) == 0 {
+			prefix = []string{"Ä", "Ω", "Ж", "Ḃ", "Ｚ", "Ấ", "𝐀"}[g.R.IntN(7)]
+		}
+		fs = append(fs, reflect.StructField{Name: fmt.Sprintf("%s%d", prefix, i), Type: t, Tag: reflect.StructTag(tg)})
 	}
 	return reflect.StructOf(fs)
 }
